@@ -26,7 +26,7 @@ ASSUMPTIONS = [
 ]
 ANCHOR_FILES = ["gpytorch/models/", "gpytorch/module.py", "gpytorch/utils/memoize.py", "gpytorch/variational/", "gpytorch/kernels/grid_interpolation_kernel.py", "gpytorch/kernels/inducing_point_kernel.py", "gpytorch/kernels/grid_kernel.py"]
 
-QUICK_FAMS = ["default", "default_iterative", "ski", "sgpr", "batch", "svgp_whitened", "svgp_unwhitened", "lmc_multitask"]
+QUICK_FAMS = ["default", "default_iterative", "ski", "ski_dynamic_grid", "sgpr", "batch", "svgp_whitened", "svgp_unwhitened", "lmc_multitask"]
 ALL_FAMS = ["default", "default_iterative", "batch", "ski", "ski_dynamic_grid", "sgpr", "svgp_whitened", "svgp_unwhitened", "svgp_meanfield", "svgp_batch_decoupled", "lmc_multitask"]
 STATE_CHANGING = {"train_step", "set_data", "set_targets", "load_sd"}
 EXACT_ALPHA = ["pred", "pred_fpv", "pred_nodetach", "pred_skipvar", "pred_eager", "pred_batch", "train_step", "set_data", "set_targets", "load_sd", "load_sd_same", "fantasy", "prior", "backward", "train_eval"]
@@ -34,7 +34,12 @@ VAR_ALPHA = ["pred", "pred_batch", "pred_skipvar", "pred_eager", "train_step", "
 VAR_FAMS = {"svgp_whitened", "svgp_unwhitened", "svgp_meanfield", "svgp_batch_decoupled", "lmc_multitask"}
 
 
+VAR_FANTASY_FAMS = {"svgp_whitened", "svgp_unwhitened"}
+
+
 def _alpha(fam):
+    if fam in VAR_FANTASY_FAMS:
+        return VAR_ALPHA + ["var_fantasy"]
     if fam == "lmc_multitask":
         return [o for o in VAR_ALPHA if o != "pred_batch"]  # LMC latents do not broadcast against an extra input batch (explicit error)
     return VAR_ALPHA if fam in VAR_FAMS else EXACT_ALPHA
@@ -142,6 +147,9 @@ def _run_case(case, ctx, fam):
         if not all(bool(__import__("torch").isfinite(p_).all()) for p_ in m.parameters()):
             ctx.reject(f"operation produced non-finite parameters: {case['family']}:{op}")
             return
+        if op == "var_fantasy" and out is not None:
+            ctx.close("variational_fantasy_first_prediction_matches_recomputed", torch.cat([out[1][0].reshape(-1), out[1][1].reshape(-1)]), torch.cat([out[2][0].reshape(-1), out[2][1].reshape(-1)]), (1e-6, 1e-6),
+                      cls=case["family"] + ":var_fantasy", step=i, op=op, prefix=case["seq"][: i + 1])
         if op.startswith("pred"):
             had_pred = True
             # the operation's own output, under the operation's own settings, against a fresh model in the same state
